@@ -441,17 +441,28 @@ def check(job):
                 viol.append(("order-within-category:" + g, "%s lists %r, declaration order is %r\n%s" % (g, mine, order, text), case))
     if sorted(m.outputs) != sorted(outputs) or len(m.outputs) != len(set(m.outputs)):
         viol.append(("outputs", "outputs %r, expected %r\n%s" % (m.outputs, outputs, text), case))
-    # every symbol the equations depend on is a listed variable (a derivative that is in no list cannot be supplied
-    # to the residual functions).  Not demanded: der(u) of a top-level input u -- see the assumptions.
-    listed = set(got) | set(ders) | {m.time.name()}
-    used = set()
-    for eq in list(m.equations) + list(m.initial_equations):
-        used |= {s.name() for s in ca.symvar(ca.MX(eq))}
+    # every symbol the equations depend on is a listed variable: the residual functions take exactly the listed
+    # symbols (the objects, not their names) as arguments, anything else is a free variable nobody can supply.
+    # Not demanded: der(u) of a top-level input u -- see the assumptions.
+    listed = {m.time.__hash__(): m.time.name()}
+    for g in ("states", "der_states", "alg_states", "inputs", "constants", "parameters"):
+        for v in getattr(m, g):
+            listed[v.symbol.__hash__()] = v.symbol.name()
     tolerated = {"der(%s)" % n for n, cat in ref.items() if cat == "inputs"}
-    stray = sorted(used - listed - tolerated)
+    stray = {}
+    for eq in list(m.equations) + list(m.initial_equations):
+        for sym in ca.symvar(ca.MX(eq)):
+            if sym.__hash__() not in listed and sym.name() not in tolerated:
+                kind = "second-object-of-a-listed-name" if sym.name() in listed.values() else "derivative" if sym.name().startswith("der(") else "symbol"
+                stray[sym.name()] = kind
     if stray:
-        kinds = sorted({"derivative" if s.startswith("der(") else "symbol" for s in stray})
-        viol.append(("unlisted-symbol-in-equations:" + "+".join(kinds), "the equations depend on %r, which are in no variable list\n%s" % (stray, text), case))
+        viol.append(
+            (
+                "unlisted-symbol-in-equations:" + "+".join(sorted(set(stray.values()))),
+                "the equations depend on %r, which are in no variable list (so the residual function has free variables)\n%s" % (sorted(stray.items()), text),
+                case,
+            )
+        )
     py = {}
     for k, (typ, var, cau, use) in enumerate(cfgs):
         if BASE[typ] in PYTYPE:
